@@ -1249,16 +1249,19 @@ func lcRuleSelects(r *storage.LifecycleRule, key string, size int64, tags map[st
 }
 
 // lcDue is the due time of a day-based action: base + days, rounded up to
-// midnight UTC. strict=false gives the earliest defensible instant (a time
-// that is already a midnight stays), strict=true the latest one (always the
-// next midnight).
+// the first midnight UTC strictly after it (S3: "the next day midnight UTC";
+// an instant that is itself a midnight is due a full day later). strict only
+// documents which base the caller passes (earliest or latest possible).
 func lcDue(base time.Time, days int32, strict bool) time.Time {
+	_ = strict
 	t := base.UTC().AddDate(0, 0, int(days))
 	m := time.Date(t.Year(), t.Month(), t.Day(), 0, 0, 0, 0, time.UTC)
-	if !strict && m.Equal(t) {
-		return m
-	}
 	return m.AddDate(0, 0, 1)
+}
+
+func lcIsMidnight(t time.Time) bool {
+	t = t.UTC()
+	return t.Hour() == 0 && t.Minute() == 0 && t.Second() == 0 && t.Nanosecond() == 0
 }
 
 func lcEnabled(r *storage.LifecycleRule) bool { return r.Status == storage.LifecycleRuleStatusEnabled }
@@ -1657,8 +1660,18 @@ func (r *lcRun) onDelete(bn_, k string, opts *storage.DeleteObjectOptions, res *
 		r.fail("deleted-current-version-by-id", "the reconciler permanently deleted the current version %v of %s/%s at %s", v, bn_, k, r.ts2(now))
 	case isCurrent && v.marker:
 		r.rc.Stats.Inc("c25.action.remove_expired_marker")
-		if len(b.keys[k]) != 1 {
-			r.fail("delete-marker-removed-while-versions-remain", "the reconciler removed the current delete marker %v of %s/%s at %s although %d other versions of the key exist", v, bn_, k, r.ts2(now), len(b.keys[k])-1)
+		objects := 0
+		for _, x := range b.keys[k] {
+			if !x.marker {
+				objects++
+			}
+		}
+		if len(b.keys[k]) != 1 && objects == 0 {
+			// only (stacked) delete markers are left of the key: removing the top one hides nothing
+			r.rc.Stats.Inc("probe.c25.marker_removed_above_older_markers")
+		}
+		if objects > 0 {
+			r.fail("delete-marker-removed-while-versions-remain", "the reconciler removed the current delete marker %v of %s/%s at %s although %d object versions of the key exist", v, bn_, k, r.ts2(now), objects)
 		} else if !b.markerRemovalAllowed(v) {
 			r.fail("delete-marker-removed-without-rule", "the reconciler removed the delete marker %v of %s/%s at %s but no enabled Expiration rule selects the key; rules: %s", v, bn_, k, r.ts2(now), lcRulesString(b.cfg, r))
 		}
@@ -2180,6 +2193,141 @@ func (r *lcRun) advance(g *sim.Tape) {
 //go:noinline
 func lcAtomicSweep(ctx context.Context, rec lcReconciler) { rec.ReconcileOnce(ctx, nil) }
 
+// lcAtomicOp marks a goroutine whose storage calls run as one scheduler step:
+// no step, hence no microsecond of simulated time, passes inside it, so every
+// timestamp the system records in it equals the instant it started at.
+//
+//go:noinline
+func lcAtomicOp(fn func()) { fn() }
+
+func (r *lcRun) atomically(fn func()) {
+	done := make(chan struct{})
+	go func() {
+		defer close(done)
+		defer func() {
+			if p := recover(); p != nil && r.herr == nil {
+				r.herr = fmt.Errorf("C25 panic in atomic client op: %v", p)
+			}
+		}()
+		lcAtomicOp(fn)
+	}()
+	<-done
+}
+
+// toMidnight lets the calling task resume exactly at target (a midnight UTC):
+// a task that wakes up at T is resumed by the scheduler one step (1 µs) later.
+func (r *lcRun) toMidnight(target time.Time) bool {
+	r.sleepUntil(target.Add(-time.Microsecond))
+	if now := time.Now(); !now.Equal(target) || !lcIsMidnight(now) {
+		r.rc.Stats.Inc("probe.c25.midnight_wakeup_missed")
+		return false
+	}
+	return true
+}
+
+func (r *lcRun) noteExact(kind string, t time.Time) {
+	if lcIsMidnight(t) {
+		r.rc.Stats.Inc("probe.c25.timestamp_exactly_midnight")
+		r.rc.Stats.Inc("probe.c25.timestamp_exactly_midnight." + kind)
+	} else {
+		r.rc.Stats.Inc("probe.c25.timestamp_intended_midnight_but_off." + kind)
+	}
+}
+
+// midnightWrite performs one client write whose recorded timestamp (Last-Modified of the new
+// version or delete marker, the instant its predecessor became noncurrent, Initiated of an
+// upload) is exactly the next midnight UTC.
+func (r *lcRun) midnightWrite(g *sim.Tape, b *lcBucket, k string) error {
+	if !r.toMidnight(lcMidnightAfter(time.Now())) {
+		return nil
+	}
+	var err error
+	r.atomically(func() {
+		cur := b.current(k)
+		kind := g.Int(4)
+		switch {
+		case kind == 2 && cur != nil && !cur.marker:
+			if err = r.del(b, k, nil); err != nil {
+				return
+			}
+			if b.versioned {
+				res, lerr := r.st.ListObjectVersions(r.ctx, bn(b.name), storage.ListObjectVersionsOptions{Prefix: sp(k), MaxKeys: 1000})
+				if lerr != nil {
+					err = lerr
+					return
+				}
+				for _, v := range res.Versions {
+					if v.Key.String() == k && v.IsLatest && v.IsDeleteMarker {
+						r.noteExact("marker", v.LastModified)
+						r.noteExact("noncurrent_since", v.LastModified)
+					}
+				}
+			}
+		case kind == 3:
+			if err = r.upload(b, k, 10); err != nil {
+				return
+			}
+			ups, lerr := r.st.ListMultipartUploads(r.ctx, bn(b.name), storage.ListMultipartUploadsOptions{MaxUploads: 1000})
+			if lerr != nil {
+				err = lerr
+				return
+			}
+			mine := b.uploads[len(b.uploads)-1]
+			for _, u := range ups.Uploads {
+				if u.UploadId.String() == mine.id.String() {
+					r.noteExact("upload", u.Initiated)
+				}
+			}
+		default:
+			r.seq++
+			class := []string{"", "", "STANDARD_IA", "GLACIER"}[g.Int(4)]
+			if err = r.put(b, k, r.seq, lcSizes[g.Int(len(lcSizes))], lcTagSets[g.Int(len(lcTagSets))], class); err != nil {
+				return
+			}
+			o, herr := r.st.HeadObject(r.ctx, bn(b.name), ok(k), nil)
+			if herr != nil {
+				err = herr
+				return
+			}
+			r.noteExact("put", o.LastModified)
+			if b.versioned && cur != nil {
+				r.noteExact("noncurrent_since", o.LastModified)
+			}
+		}
+	})
+	return err
+}
+
+// midnightSweep runs a sweep whose instant is exactly a midnight UTC: the Date of a
+// date-based rule that lies ahead, or one of the next midnights.
+func (r *lcRun) midnightSweep(g *sim.Tape, rec lcReconciler) {
+	now := time.Now()
+	var dates []time.Time
+	for _, name := range r.names {
+		if cfg := r.buckets[name].cfg; cfg != nil {
+			for i := range cfg.Rules {
+				rl := &cfg.Rules[i]
+				if rl.Expiration != nil && rl.Expiration.Date != nil && rl.Expiration.Date.After(now) {
+					dates = append(dates, rl.Expiration.Date.UTC())
+				}
+				for _, t := range rl.Transitions {
+					if t.Date != nil && t.Date.After(now) {
+						dates = append(dates, t.Date.UTC())
+					}
+				}
+			}
+		}
+	}
+	sort.Slice(dates, func(i, j int) bool { return dates[i].Before(dates[j]) })
+	target := lcMidnightAfter(now).AddDate(0, 0, g.Int(3))
+	if len(dates) > 0 && g.Chance(2, 3) {
+		target = dates[g.Int(len(dates))]
+	}
+	if r.toMidnight(target) {
+		r.sweep(rec, true)
+	}
+}
+
 type lcExpect struct {
 	kind    string
 	b       *lcBucket
@@ -2371,6 +2519,24 @@ func (r *lcRun) sweep(rec lcReconciler, liveness bool) {
 	if until := lcMidnightAfter(t).Sub(t); until < 300*time.Microsecond || t.Sub(lcMidnightAfter(t).AddDate(0, 0, -1)) < 300*time.Microsecond {
 		r.rc.Stats.Inc("probe.c25.sweep_at_midnight_edge")
 	}
+	if lcIsMidnight(t) {
+		r.rc.Stats.Inc("probe.c25.sweep_exactly_midnight")
+		atDate := false
+		for _, name := range r.names {
+			if cfg := r.buckets[name].cfg; cfg != nil {
+				for i := range cfg.Rules {
+					rl := &cfg.Rules[i]
+					atDate = atDate || rl.Expiration != nil && rl.Expiration.Date != nil && rl.Expiration.Date.Equal(t)
+					for _, tr := range rl.Transitions {
+						atDate = atDate || tr.Date != nil && tr.Date.Equal(t)
+					}
+				}
+			}
+		}
+		if atDate {
+			r.rc.Stats.Inc("probe.c25.sweep_exactly_at_rule_date")
+		}
+	}
 	if r.race {
 		rec.ReconcileOnce(r.ctx, nil)
 	} else {
@@ -2451,7 +2617,7 @@ func lcSetup(rc *RunCtx, race bool) (*lcRun, lcReconciler, error) {
 		return nil, nil, fmt.Errorf("metadatapart storage is not transactional")
 	}
 	r := &lcRun{rc: rc, ctx: ctx, w: w, st: w.Storage, ts: ts, buckets: map[string]*lcBucket{}, race: race, epoch: time.Now().UTC()}
-	rc.S.AtomicMarkers = []string{"scen.lcAtomicSweep"}
+	rc.S.AtomicMarkers = []string{"scen.lcAtomicSweep", "scen.lcAtomicOp"}
 	for _, name := range []string{"plain", "vers"} {
 		b := &lcBucket{name: name, versioned: name == "vers", keys: map[string][]*lcVer{}, keyTouched: map[string]time.Time{}}
 		if err := r.st.CreateBucket(ctx, bn(name)); err != nil {
@@ -2572,7 +2738,7 @@ func runC25Seq(rc *RunCtx, versions bool) (*Violation, error) {
 		weights := []struct {
 			kind string
 			w    int
-		}{{"put", 7}, {"sleep", 6}, {"sweep", 4}, {"delete", 2}, {"delver", 2}, {"tag", 2}, {"upload", 2}, {"config", 1}}
+		}{{"put", 7}, {"sleep", 6}, {"sweep", 4}, {"delete", 2}, {"delver", 2}, {"tag", 2}, {"upload", 2}, {"config", 1}, {"midwrite", 3}, {"midsweep", 2}}
 		if versions {
 			weights[0].w, weights[2].w, weights[5].w, weights[6].w, weights[7].w = 10, 5, 3, 0, 0
 		}
@@ -2637,6 +2803,12 @@ func runC25Seq(rc *RunCtx, versions bool) (*Violation, error) {
 				r.advance(g)
 			case "sweep":
 				r.sweep(rec, true)
+			case "midwrite":
+				if fail(r.midnightWrite(g, b, k)) {
+					return
+				}
+			case "midsweep":
+				r.midnightSweep(g, rec)
 			}
 		}
 		if r.viol != nil {
